@@ -308,7 +308,13 @@ def roundtrip_checks(ctx, case, u, u2, label):
                 ctx.exclude('u2 == u not judged: units differ only by ProcedureType links dropped by pickling (listed known finding)')
         else:
             comp, fine = still_unequal
-            fail(f'{pre}:not-equal:{comp}', f'unpickled != original (also with ProcedureType links ignored); first difference: {fine}')
+            if 'Associate.associations' in str(fine) and 'DeferredTypeSymbol' in str(comp):
+                # the listed root cause seen through `==`: an associate selector comes back as a DeferredTypeSymbol
+                fail(f'{pre}:type-differs:Associate.associations',
+                     f'unpickled != original: an ASSOCIATE selector changed its symbol class; first difference: {fine}')
+            else:
+                fail(f'{pre}:not-equal:{comp}',
+                     f'unpickled != original (also with ProcedureType links ignored); first difference: {fine}')
     # 5. symbol-table contents (entries of intrinsic procedure names are created wherever such a name is re-attached)
     t1, t2 = _no_intrinsics(s1['symtab']), _no_intrinsics(s2['symtab'])
     # entries 'a%b' of derived-type members are a cache filled when a member is first looked up: one that exists only in the
